@@ -104,11 +104,12 @@ Theorem C17_wire_peer_reset_surfaces_exact :
    step st' (LPollRecv k) = Ok st' [OSurface (s_id r) (RBool false)]).
 Proof. exact peer_reset_surfaces_exact. Qed.
 
-(* a connection error (our GOAWAY, an I/O failure, the error of handle_go_away) reaches every linked record *)
+(* a connection error (our GOAWAY, an I/O failure, the error of handle_go_away) reaches every linked record (`failed`:
+   the promised records failed together with a PUSH_PROMISE dropped from a parent's queue, repair cc6ac6c) *)
 Theorem C17_wire_conn_error_reaches_handles :
-  forall st e st' outs k r,
-  step st (LHandleError e) = Ok st' outs -> kget st k = Some r -> is_linked st k = true ->
-  no_push (linked_queues st) = true ->
+  forall st e failed st' outs k r,
+  step st (LHandleError e failed) = Ok st' outs -> kget st k = Some r -> is_linked st k = true ->
+  ~ In k failed ->
   let s' := fst (handle_error e (s_state r)) in
   (exists r', kget st' k = Some r' /\ s_state r' = s' /\ s_q r' = [] /\ s_infl r' = None) /\
   c_conn_error st' = Some e /\
